@@ -132,7 +132,7 @@ func lemmaStepDecEnc(u trackerUpdate, cnt uint32, x uint32) {}
 
 //@ lemma
 //@ props C07
-//@ requires wfUpdate(u, cnt) && 1 <= y && y <= cntAfter(u, cnt) && (u.expunge == 0 || cnt < 4294967295)
+//@ requires wfUpdate(u, cnt) && 1 <= y && y <= cntAfter(u, cnt)
 //@ ensures (stepEnc(u, y) == 0) == (u.numMessages != 0 && y > cnt)
 //@ ensures stepEnc(u, y) != 0 ==> 1 <= stepEnc(u, y) && stepEnc(u, y) <= cnt && stepDec(u, stepEnc(u, y)) == y
 func lemmaStepEncDec(u trackerUpdate, cnt uint32, y uint32) {}
@@ -183,6 +183,111 @@ func wfBack(q []trackerUpdate, k int, c uint32) bool {
 		return true
 	}
 	return okBack(q[k], c) && wfBack(q, k-1, cntBefore(q[k], c))
+}
+
+// ---------------------------------------------------------------------------
+// Queue level: translating a server-view number to the client's view and back
+// gives the same number, for every well-formed queue of any length.
+
+// decUpTo: apply q[0], ..., q[k] in order (client view -> view after q[k]);
+// the same translation as decFrom, accumulated from the front.
+//
+//@ pure
+//@ decreases k + 1
+func decUpTo(q []trackerUpdate, k int, x uint32) uint32 {
+	if k < 0 || k >= len(q) {
+		return x
+	}
+	return stepDec(q[k], decUpTo(q, k-1, x))
+}
+
+// lemmaDecFold: decFrom (what DecodeSeqNum is proved to compute) and decUpTo
+// are the same function: decoding the rest of the queue from what the first i
+// updates made of x is decoding the whole queue from x.
+//
+//@ lemma
+//@ props C07
+//@ requires 0 <= i && i <= len(q)
+//@ ensures decFrom(q, i, decUpTo(q, i-1, x)) == decFrom(q, 0, x)
+//@ decreases i
+func lemmaDecFold(q []trackerUpdate, i int, x uint32) {
+	if i > 0 {
+		lemmaDecFold(q, i-1, x)
+	}
+}
+
+// lemmaEncDecQueue: for a queue q[0..k] that is well formed for the count c
+// after q[k], a server-view number y in 1..c that the client knows (its
+// client-view number encAcc is not zero) decodes back to y.
+//
+//@ lemma
+//@ props C07
+//@ requires -1 <= k && k < len(q) && wfBack(q, k, c) && 1 <= y && y <= c
+//@ ensures encAcc(q, k, y) != 0 ==> decUpTo(q, k, encAcc(q, k, y)) == y
+//@ decreases k + 1
+func lemmaEncDecQueue(q []trackerUpdate, k int, c uint32, y uint32) {
+	if k < 0 {
+		return
+	}
+	lemmaStepEncDec(q[k], cntBefore(q[k], c), y)
+	if w := stepEnc(q[k], y); w != 0 {
+		lemmaEncDecQueue(q, k-1, cntBefore(q[k], c), w)
+	}
+}
+
+// cntPre: the message count before q[0], computed backwards from the count c
+// after q[k] (what the client has been told).
+//
+//@ pure
+//@ decreases k + 1
+func cntPre(q []trackerUpdate, k int, c uint32) uint32 {
+	if k < 0 || k >= len(q) {
+		return c
+	}
+	return cntPre(q, k-1, cntBefore(q[k], c))
+}
+
+// lemmaDecEncQueue: the other direction - a client-view number x in
+// 1..(client's count) that still exists on the server (its decoding is not
+// zero) decodes to a number in 1..c that encodes back to x.
+//
+//@ lemma
+//@ props C07
+//@ requires -1 <= k && k < len(q) && wfBack(q, k, c) && 1 <= x && x <= cntPre(q, k, c)
+//@ ensures decUpTo(q, k, x) != 0 ==> 1 <= decUpTo(q, k, x) && decUpTo(q, k, x) <= c && encAcc(q, k, decUpTo(q, k, x)) == x
+//@ decreases k + 1
+func lemmaDecEncQueue(q []trackerUpdate, k int, c uint32, x uint32) {
+	if k < 0 {
+		return
+	}
+	lemmaDecEncQueue(q, k-1, cntBefore(q[k], c), x)
+	if p := decUpTo(q, k-1, x); p != 0 {
+		lemmaStepDecEnc(q[k], cntBefore(q[k], c), p)
+	}
+}
+
+// lemmaEncodeDecode: the statement of the property for the real functions'
+// specifications: whenever EncodeSeqNum gives the client a number for the
+// server-view number y, DecodeSeqNum's fold maps that number back to y.
+//
+//@ lemma
+//@ props C07
+//@ requires wfBack(q, len(q)-1, c) && 1 <= y && y <= c
+//@ ensures encAcc(q, len(q)-1, y) != 0 ==> decFrom(q, 0, encAcc(q, len(q)-1, y)) == y
+func lemmaEncodeDecode(q []trackerUpdate, c uint32, y uint32) {
+	lemmaEncDecQueue(q, len(q)-1, c, y)
+	lemmaDecFold(q, len(q), encAcc(q, len(q)-1, y))
+}
+
+// lemmaDecodeEncode: and the converse for the real functions' specifications.
+//
+//@ lemma
+//@ props C07
+//@ requires wfBack(q, len(q)-1, c) && 1 <= x && x <= cntPre(q, len(q)-1, c)
+//@ ensures decFrom(q, 0, x) != 0 ==> decFrom(q, 0, x) <= c && encAcc(q, len(q)-1, decFrom(q, 0, x)) == x
+func lemmaDecodeEncode(q []trackerUpdate, c uint32, x uint32) {
+	lemmaDecEncQueue(q, len(q)-1, c, x)
+	lemmaDecFold(q, len(q), x)
 }
 
 //@ func (t *SessionTracker) EncodeSeqNum(seqNum uint32) (result uint32)
